@@ -32,6 +32,7 @@ ExpShape(e) ==
   LET r == e.d.rows  c == e.d.cols  n == e.d.n  k == e.d.k  mc == e.d.mc IN
   CASE e.op = "project" -> [q |-> <<r, r>>, oq |-> <<r, r>>, pm |-> <<r, mc>>, pv |-> <<r>>]
     [] e.op = "chord"   -> [angles |-> <<c>>]
+    [] e.op = "chordx"  -> [angles |-> <<Min(c, n)>>]          \* subspaces of dimension c and n # c
     [] e.op = "lrsv"    -> [v0 |-> <<c, n>>, v1 |-> <<c, c - n>>, s |-> <<c - n>>]
     [] e.op = "pcm"     -> [out |-> <<r, k>>]
     [] e.op \in {"peig", "leig"} -> [v |-> <<r, n>>, d |-> <<n>>]
@@ -44,6 +45,7 @@ ExpShape(e) ==
 ReqPreds(e) ==
   CASE e.op = "project" -> {"Hermitian", "Idempotent", "FixesA", "Complementary", "ReflectTwice"}
     [] e.op = "chord"   -> {"ThreeRoutinesAgree", "Symmetric", "ZeroOnEqualSubspaces", "BasisInvariant", "UnitaryInvariant", "AnglesGiveDistance"}
+    [] e.op = "chordx"  -> {"TwoRoutinesAgree", "Symmetric", "BasisInvariant", "UnitaryInvariant", "NestedGivesHalfDimDiff", "AnglesSumCos2IsTrace"}
     [] e.op = "lrsv"    -> {"Unitary", "SingularValuesAligned", "LeastSubspace"}
     [] e.op = "pcm"     -> {"RankKApproximationColumns"}
     [] e.op \in {"peig", "leig"} -> {"EigenEquation", "ExtremeValuesInOrder", "UnitColumns"}
@@ -58,6 +60,7 @@ ExpPred(e, p) == IF e.op = "whiten" THEN WhitenOutcome(e.d.rows, e.d.cols) ELSE 
 
 InDomain(e) ==
   CASE e.op = "lrsv" -> e.d.n \in 0..e.d.cols
+    [] e.op = "chordx" -> e.d.cols \in 1..e.d.rows /\ e.d.n \in 1..e.d.rows /\ e.d.n # e.d.cols
     [] e.op = "pcm"  -> e.d.k \in 1..Min(e.d.rows, e.d.cols)
     [] e.op \in {"peig", "leig"} -> e.d.rows = e.d.cols /\ e.d.n >= 1
     [] OTHER -> e.d.rows >= 1 /\ e.d.cols >= 1
